@@ -203,7 +203,8 @@ def check_props(pid):
                 if m:
                     axioms.add(m.group(1))
     allow = allowed_axioms()
-    dis = sorted(a for a in axioms if a not in allow)
+    pref = tuple(x[:-1] for x in allow if x.endswith('*'))
+    dis = sorted(a for a in axioms if a not in allow and not a.startswith(pref))
     n_print = len(re.findall(r'^\s*Print Assumptions\s+\w+', src, re.M))
     if n_print < len(theorems):
         return False, theorems, sorted(axioms), dis, out + '\nmissing Print Assumptions for some theorem'
